@@ -105,6 +105,9 @@ func writeVNCImage(dir string) {
 	os.WriteFile(filepath.Join(dir, "vnc.png"), b.Bytes(), 0644)
 }
 
+// pasvConnectMarker: not sent - stands for "connect to the passive port the service just announced, then stay silent"
+var pasvConnectMarker = []byte("\x00pasvconnect\x00")
+
 // prototypes returns well-formed client dialogues (lists of messages) for a service.
 func prototypes(s *svcSpec, r *Rng) [][][]byte {
 	var out [][][]byte
@@ -151,6 +154,20 @@ func prototypes(s *svcSpec, r *Rng) [][][]byte {
 			}
 			out = append(out, d)
 		}
+		// data connections that are opened and then left alone: the client connects to the passive port (marker:
+		// the scenario builder turns it into a connect to the port of the last 227 reply) or accepts the active
+		// connection (the engine's sink address) and then neither sends nor reads nor closes
+		xfer := func() []byte {
+			return []byte(r.Pick([]string{"STOR f", "RETR f", "LIST", "NLST", "APPE f", "MLSD"}) + "\r\n")
+		}
+		out = append(out,
+			append(append([][]byte{}, login...), []byte("PASV\r\n"), pasvConnectMarker, xfer()),
+			append(append([][]byte{}, login...), []byte("PASV\r\n"), pasvConnectMarker, []byte("PASV\r\n"), pasvConnectMarker, xfer()),
+			append(append([][]byte{}, login...), []byte("PASV\r\n"), []byte("PASV\r\n"), pasvConnectMarker, xfer()),
+			append(append([][]byte{}, login...), []byte("PORT 10,1,0,10,4,1\r\n"), xfer()),
+			append(append([][]byte{}, login...), []byte("PORT 10,1,0,10,4,1\r\n"), []byte("EPRT |1|10.1.0.10|1025|\r\n"), xfer()),
+			append(append([][]byte{}, login...), []byte("PASV\r\n"), pasvConnectMarker, []byte("PORT 10,1,0,10,4,1\r\n"), xfer()),
+		)
 	case "echo", "echo-udp":
 		out = append(out, [][]byte{[]byte("hello\r\n"), r.Bytes(r.Range(1, 100))})
 	case "smtp":
